@@ -76,69 +76,183 @@ theorem AgreeOn.sub_grow {N : List Src.Node} {Z : Nat → Prop} {b b1 b2 b' : Sr
     AgreeOn N Z b1 b2 :=
   h.sub g0.len g2.len (fun i h1 h2 => g2.get (fun hz => by have := h.1 i hz; have := g0.len; omega) h2)
 
+/-! ### copies: what a macro expansion does to the items of a blueprint -/
+
+/-- a macro expansion copies the blueprint of the macro: labels get private numbers (`σ`), parameters named like a macro
+variable are replaced (`sub`), a `Return` op becomes a `Jump` to the end label of the expansion (`ret`; `none`: not inside an
+expansion), ops get new numbers.  Expansions inside macro bodies compose. -/
+structure Copy where
+  σ : Nat → Nat := id
+  sub : ESV.Param → ESV.Param := id
+  ret : Option Nat := none
+
+/-- `x'` is a copy of `x` -/
+def cpRel (c : Copy) : LItem → LItem → Prop
+  | .label l _, x' => ∃ nm, x' = .label (c.σ l) nm
+  | .ljump root (some l), x' => ∃ o, x' = .ljump ⟨o, root.name, root.params.map c.sub⟩ (some (c.σ l))
+  | .ljump _ none, _ => False
+  | .op o, x' =>
+    if o.name = Gen.op_return then
+      match c.ret with
+      | some e => ∃ o', x' = .ljump ⟨o', Gen.op_jump, []⟩ (some e)
+      | none => ∃ o', x' = .op ⟨o', o.name, o.params.map c.sub⟩
+    else ∃ o', x' = .op ⟨o', o.name, o.params.map c.sub⟩
+
+inductive All2 {α β : Type} (R : α → β → Prop) : List α → List β → Prop where
+  | nil : All2 R [] []
+  | cons {a : α} {b : β} {as : List α} {bs : List β} : R a b → All2 R as bs → All2 R (a :: as) (b :: bs)
+
+theorem All2.length {α β : Type} {R : α → β → Prop} : ∀ {as : List α} {bs : List β}, All2 R as bs → as.length = bs.length
+  | _, _, .nil => rfl
+  | _, _, .cons _ r => by simp [All2.length r]
+
+theorem All2.split {α β : Type} {R : α → β → Prop} : ∀ (a b : List α) {l : List β}, All2 R (a ++ b) l →
+    ∃ l1 l2, l = l1 ++ l2 ∧ All2 R a l1 ∧ All2 R b l2
+  | [], b, l, h => ⟨[], l, rfl, .nil, h⟩
+  | x :: a, b, l, h => by
+    cases h with
+    | cons hx hr =>
+      obtain ⟨l1, l2, e, h1, h2⟩ := All2.split a b hr
+      exact ⟨_ :: l1, l2, by rw [e]; rfl, .cons hx h1, h2⟩
+
+theorem All2.get {α β : Type} {R : α → β → Prop} : ∀ {as : List α} {bs : List β}, All2 R as bs → ∀ (d : Nat) (x : α), as[d]? = some x →
+    ∃ y, bs[d]? = some y ∧ R x y
+  | _, _, .nil, d, x, h => by simp at h
+  | _, _, .cons hx hr, 0, x, h => by
+    simp only [List.getElem?_cons_zero, Option.some.injEq] at h
+    subst h
+    exact ⟨_, rfl, hx⟩
+  | _, _, .cons hx hr, d + 1, x, h => by
+    simp only [List.getElem?_cons_succ] at h ⊢
+    exact All2.get hr d x h
+
+theorem All2.imp {α β : Type} {R R' : α → β → Prop} (hi : ∀ a b, R a b → R' a b) : ∀ {as : List α} {bs : List β}, All2 R as bs → All2 R' as bs
+  | _, _, .nil => .nil
+  | _, _, .cons h r => .cons (hi _ _ h) (All2.imp hi r)
+
 /-! ### pieces of labelled code in a program -/
 
-def Placed (rs : List (List LItem)) (r i0 : Nat) (items : List LItem) : Prop :=
+/-- the items themselves stand in routine `r` from index `i0` on -/
+def PlacedX (rs : List (List LItem)) (r i0 : Nat) (items : List LItem) : Prop :=
   ∃ pre post, rs[r]? = some (pre ++ items ++ post) ∧ pre.length = i0
 
-theorem Placed.left {rs : List (List LItem)} {r i0 : Nat} {a b : List LItem} (h : Placed rs r i0 (a ++ b)) : Placed rs r i0 a := by
-  obtain ⟨pre, post, h1, h2⟩ := h
-  exact ⟨pre, b ++ post, by simpa [List.append_assoc] using h1, h2⟩
+/-- a copy of the items stands in routine `r` from index `i0` on -/
+def Placed (c : Copy) (rs : List (List LItem)) (r i0 : Nat) (items : List LItem) : Prop :=
+  ∃ items', All2 (cpRel c) items items' ∧ PlacedX rs r i0 items'
 
-theorem Placed.right {rs : List (List LItem)} {r i0 : Nat} {a b : List LItem} (h : Placed rs r i0 (a ++ b)) :
-    Placed rs r (i0 + a.length) b := by
-  obtain ⟨pre, post, h1, h2⟩ := h
-  exact ⟨pre ++ a, post, by simpa [List.append_assoc] using h1, by simp [h2]⟩
+/-- at position `p` stands a copy of `x` -/
+def ItemC (c : Copy) (rs : List (List LItem)) (p : LPos) (x : LItem) : Prop := ∃ x', cpRel c x x' ∧ itemAt rs p = some x'
 
-theorem Placed.get {rs : List (List LItem)} {r i0 : Nat} {items : List LItem} (h : Placed rs r i0 items) :
-    ∃ its, rs[r]? = some its ∧ ∀ d x, items[d]? = some x → its[i0 + d]? = some x := by
-  obtain ⟨pre, post, h1, h2⟩ := h
-  refine ⟨_, h1, fun d x hx => ?_⟩
-  have hd : d < items.length := by
-    rcases Nat.lt_or_ge d items.length with h' | h'
+theorem cpRel_id (x : LItem) (hx : ∀ root, x ≠ .ljump root none) : cpRel {} x x := by
+  cases x with
+  | label l nm => exact ⟨nm, rfl⟩
+  | ljump root t =>
+    cases t with
+    | none => exact absurd rfl (hx root)
+    | some l => exact ⟨root.offset, by simp [List.map_id']⟩
+  | op o =>
+    simp only [cpRel]
+    split
+    · exact ⟨o.offset, by simp [List.map_id']⟩
+    · exact ⟨o.offset, by simp [List.map_id']⟩
+
+theorem Placed.of_exact {rs : List (List LItem)} {r i0 : Nat} {items : List LItem} (h : PlacedX rs r i0 items)
+    (hn : ∀ x ∈ items, ∀ root, x ≠ LItem.ljump root none) : Placed {} rs r i0 items := by
+  refine ⟨items, ?_, h⟩
+  clear h
+  induction items with
+  | nil => exact .nil
+  | cons x r ih => exact .cons (cpRel_id x (hn x (by simp))) (ih (fun y hy => hn y (by simp [hy])))
+
+theorem Placed.left {c : Copy} {rs : List (List LItem)} {r i0 : Nat} {a b : List LItem} (h : Placed c rs r i0 (a ++ b)) : Placed c rs r i0 a := by
+  obtain ⟨items', hall, pre, post, h1, h2⟩ := h
+  obtain ⟨l1, l2, rfl, a1, a2⟩ := All2.split a b hall
+  exact ⟨l1, a1, pre, l2 ++ post, by simpa [List.append_assoc] using h1, h2⟩
+
+theorem Placed.right {c : Copy} {rs : List (List LItem)} {r i0 : Nat} {a b : List LItem} (h : Placed c rs r i0 (a ++ b)) :
+    Placed c rs r (i0 + a.length) b := by
+  obtain ⟨items', hall, pre, post, h1, h2⟩ := h
+  obtain ⟨l1, l2, rfl, a1, a2⟩ := All2.split a b hall
+  exact ⟨l2, a2, pre ++ l1, post, by simpa [List.append_assoc] using h1, by simp [h2, a1.length]⟩
+
+theorem Placed.item {c : Copy} {rs : List (List LItem)} {r i0 : Nat} {items : List LItem} (h : Placed c rs r i0 items) {d : Nat} {x : LItem}
+    (hx : items[d]? = some x) : ItemC c rs ⟨r, i0 + d⟩ x := by
+  obtain ⟨items', hall, pre, post, h1, h2⟩ := h
+  obtain ⟨y, hy, hr⟩ := hall.get d x hx
+  refine ⟨y, hr, ?_⟩
+  have hd : d < items'.length := by
+    rcases Nat.lt_or_ge d items'.length with h' | h'
     · exact h'
-    · rw [List.getElem?_eq_none h'] at hx; cases hx
+    · rw [List.getElem?_eq_none h'] at hy; cases hy
+  simp only [itemAt, h1]
   rw [List.append_assoc, List.getElem?_append_right (by omega)]
   rw [show i0 + d - pre.length = d by omega, List.getElem?_append_left hd]
-  exact hx
-
-theorem Placed.item {rs : List (List LItem)} {r i0 : Nat} {items : List LItem} (h : Placed rs r i0 items) {d : Nat} {x : LItem}
-    (hx : items[d]? = some x) : itemAt rs ⟨r, i0 + d⟩ = some x := by
-  obtain ⟨its, h1, h2⟩ := h.get
-  simp only [itemAt, h1]
-  exact h2 d x hx
+  exact hy
 
 /-- a label of a placed piece resolves to its place (labels are defined once) -/
-theorem Placed.resolve {rs : List (List LItem)} (hn : (labelIds rs.flatten).Nodup) {r i0 : Nat} {items : List LItem}
-    (h : Placed rs r i0 items) {d l : Nat} {nm : Bool} (hx : items[d]? = some (.label l nm)) : target rs l = ⟨r, i0 + d⟩ := by
-  obtain ⟨its, h1, h2⟩ := h.get
-  have := findLabel_unique l nm rs 0 r its (i0 + d) hn h1 (h2 d _ hx)
-  simp [target, this]
+theorem ItemC.resolve {c : Copy} {rs : List (List LItem)} (hn : (labelIds rs.flatten).Nodup) {p : LPos} {l : Nat} {nm : Bool}
+    (h : ItemC c rs p (.label l nm)) : target rs (c.σ l) = p := by
+  obtain ⟨x', ⟨nm', rfl⟩, hit⟩ := h
+  simp only [itemAt] at hit
+  cases hr : rs[p.rtn]? with
+  | none => rw [hr] at hit; cases hit
+  | some its =>
+    rw [hr] at hit
+    have := findLabel_unique (c.σ l) nm' rs 0 p.rtn its p.idx hn hr hit
+    simp [target, this]
+
+theorem Placed.resolve {c : Copy} {rs : List (List LItem)} (hn : (labelIds rs.flatten).Nodup) {r i0 : Nat} {items : List LItem}
+    (h : Placed c rs r i0 items) {d l : Nat} {nm : Bool} (hx : items[d]? = some (.label l nm)) : target rs (c.σ l) = ⟨r, i0 + d⟩ :=
+  (h.item hx).resolve hn
 
 /-! ### single steps of labelled code -/
 
-theorem lab_label {rs : List (List LItem)} {p : LPos} {l : Nat} {nm : Bool} (h : itemAt rs p = some (.label l nm)) :
+theorem lab_label {c : Copy} {rs : List (List LItem)} {p : LPos} {l : Nat} {nm : Bool} (h : ItemC c rs p (.label l nm)) :
     (labLTS rs).step p = .silent p.next := by
+  obtain ⟨x', ⟨nm', rfl⟩, hit⟩ := h
   show lstep rs p = _
-  rw [lstep_item rs p _ h]; rfl
+  rw [lstep_item rs p _ hit]; rfl
 
-theorem lab_jump {rs : List (List LItem)} {p : LPos} {root : Op} {l : Nat} (h : itemAt rs p = some (.ljump root (some l)))
-    (hj : isJump root.name = true) : (labLTS rs).step p = .silent (target rs l) := by
+theorem lab_jump {c : Copy} {rs : List (List LItem)} {p : LPos} {root : Op} {l : Nat} (h : ItemC c rs p (.ljump root (some l)))
+    (hj : isJump root.name = true) : (labLTS rs).step p = .silent (target rs (c.σ l)) := by
+  obtain ⟨x', ⟨o, rfl⟩, hit⟩ := h
   show lstep rs p = _
-  rw [lstep_item rs p _ h]; simp only [itemStep, hj, if_true]; rfl
+  rw [lstep_item rs p _ hit]; simp only [itemStep, hj, if_true]; rfl
 
-theorem lab_test {rs : List (List LItem)} {p : LPos} {root : Op} {l : Nat} (h : itemAt rs p = some (.ljump root (some l)))
+theorem lab_test {c : Copy} {rs : List (List LItem)} {p : LPos} {root : Op} {l : Nat} (h : ItemC c rs p (.ljump root (some l)))
     (hj : isJump root.name = false) (ht : isTest root.name = true) :
-    (labLTS rs).step p = .test ⟨root.name, convParams root.params⟩ (target rs l) p.next := by
+    (labLTS rs).step p = .test ⟨root.name, convParams (root.params.map c.sub)⟩ (target rs (c.σ l)) p.next := by
+  obtain ⟨x', ⟨o, rfl⟩, hit⟩ := h
   show lstep rs p = _
-  rw [lstep_item rs p _ h]; simp only [itemStep, hj, ht, if_true, Bool.false_eq_true, if_false]; rfl
+  rw [lstep_item rs p _ hit]; simp only [itemStep, hj, ht, if_true, Bool.false_eq_true, if_false]; rfl
 
-theorem lab_op {rs : List (List LItem)} {p : LPos} {o : Op} (h : itemAt rs p = some (.op o))
-    (hn : (isJump o.name || isTest o.name) = false) :
-    (labLTS rs).step p = if Beh.endsFlow o.name && !afterCtxL rs p then .halt ⟨o.name, convParams o.params⟩
-      else .emit ⟨o.name, convParams o.params⟩ p.next := by
+theorem lab_op {c : Copy} {rs : List (List LItem)} {p : LPos} {o : Op} (h : ItemC c rs p (.op o))
+    (hn : (isJump o.name || isTest o.name) = false) (hr : o.name ≠ Gen.op_return ∨ c.ret = none) :
+    (labLTS rs).step p = if Beh.endsFlow o.name && !afterCtxL rs p then .halt ⟨o.name, convParams (o.params.map c.sub)⟩
+      else .emit ⟨o.name, convParams (o.params.map c.sub)⟩ p.next := by
+  obtain ⟨x', hx, hit⟩ := h
+  have hx' : ∃ o', x' = .op ⟨o', o.name, o.params.map c.sub⟩ := by
+    simp only [cpRel] at hx
+    split at hx
+    · rename_i hret
+      rcases hr with hr | hr
+      · exact absurd hret hr
+      · rw [hr] at hx; exact hx
+    · exact hx
+  obtain ⟨o', rfl⟩ := hx'
   show lstep rs p = _
-  rw [lstep_item rs p _ h]; simp only [itemStep, hn, Bool.false_eq_true, if_false]; rfl
+  rw [lstep_item rs p _ hit]; simp only [itemStep, hn, Bool.false_eq_true, if_false]; rfl
+
+/-- inside a macro expansion a `Return` op is a jump to the end label of the expansion -/
+theorem lab_ret {c : Copy} {rs : List (List LItem)} {p : LPos} {o : Op} {e : Nat} (h : ItemC c rs p (.op o))
+    (ho : o.name = Gen.op_return) (hc : c.ret = some e) : (labLTS rs).step p = .silent (target rs e) := by
+  obtain ⟨x', hx, hit⟩ := h
+  simp only [cpRel, ho, if_true, hc] at hx
+  obtain ⟨o', rfl⟩ := hx
+  show lstep rs p = _
+  rw [lstep_item rs p _ hit]
+  have : isJump Gen.op_jump = true := by decide
+  simp only [itemStep, this, if_true]; rfl
 
 theorem lab_end {rs : List (List LItem)} {r i : Nat} {its : List LItem} (h : rs[r]? = some its) (hi : its.length ≤ i) :
     (labLTS rs).step ⟨r, i⟩ = .halt evReturn := by
@@ -146,5 +260,26 @@ theorem lab_end {rs : List (List LItem)} {r i : Nat} {its : List LItem} (h : rs[
   simp only [lstep, h]
   rw [List.getElem?_eq_none hi]
   rfl
+
+/-- a copy of a context op is a context op -/
+theorem afterCtxL_itemC {c : Copy} {rs : List (List LItem)} {r i : Nat} {x : LItem} (h : ItemC c rs ⟨r, i⟩ x) :
+    afterCtxL rs ⟨r, i + 1⟩ = isCtxL x := by
+  obtain ⟨x', hx, hit⟩ := h
+  rw [afterCtxL_succ, hit]
+  cases x with
+  | label l nm => obtain ⟨nm', rfl⟩ := hx; rfl
+  | ljump root t =>
+    cases t with
+    | none => cases hx
+    | some l => obtain ⟨o, rfl⟩ := hx; rfl
+  | op o =>
+    simp only [cpRel] at hx
+    split at hx
+    · rename_i hret
+      have hc : isCtx o.name = false := by rw [hret]; decide
+      cases hcr : c.ret with
+      | some e => rw [hcr] at hx; obtain ⟨o', rfl⟩ := hx; simp [isCtxL, hc]
+      | none => rw [hcr] at hx; obtain ⟨o', rfl⟩ := hx; rfl
+    · obtain ⟨o', rfl⟩ := hx; rfl
 
 end ESV.Comp
